@@ -898,6 +898,12 @@ func AdoptSession(p Persistence, c *Config) (client *Client, warn []error, fatal
 	}
 
 	// instantiate client
+	if c.AtLeastOnceMax < 0 || c.AtLeastOnceMax > publishIDMask {
+		c.AtLeastOnceMax = publishIDMask + 1
+	}
+	if c.ExactlyOnceMax < 0 || c.ExactlyOnceMax > publishIDMask {
+		c.ExactlyOnceMax = publishIDMask + 1
+	}
 	if n := len(publishAtLeastOnceKeys); n > c.AtLeastOnceMax {
 		return nil, warn, fmt.Errorf("mqtt: %d AtLeastOnceMax is less than the %d pending in session", c.AtLeastOnceMax, n)
 	}
